@@ -1,9 +1,18 @@
 #!/bin/bash
-# Run once after a fresh restore (offline): warms the Kani build of the harness crate so that checks start quickly.
-# Everything is rebuilt from /repo's working tree by the checks themselves; this is only a cache warm-up.
+# Run once after a fresh restore (offline). Warms the build caches the checks use, so that the quick checks start fast:
+#   - the Kani build of the harness crate (+ /repo with feature `verif`, + Kani's std) in /verif/.build/kani-target
+#   - the native replayer of engine-M counterexamples
+#   - the MIR dump of /repo's current tree (nightly rustc)
+# Nothing here is evidence: every check rebuilds from /repo's working tree (cargo fingerprints / a content digest of
+# /repo/src decide whether the caches are still valid).
 set -u
 cd "$(dirname "$0")"
 export CARGO_NET_OFFLINE=true
 mkdir -p .build/logs evidence replays
 cp /repo/Cargo.lock kani/Cargo.lock 2>/dev/null || true
+cp /repo/Cargo.lock replay/Cargo.lock 2>/dev/null || true
+( cd kani && timeout 1500 cargo kani --target-dir /verif/.build/kani-target -Z stubbing --exact --harness c15::c15_atomic_move_n2_l5 --only-codegen > /verif/.build/logs/setup-kani.log 2>&1 ) &
+( cd replay && CARGO_TARGET_DIR=/verif/.build/replay-target timeout 900 cargo build --offline > /verif/.build/logs/setup-replay.log 2>&1 ) &
+( timeout 900 python3-vt -c "import sys; sys.path.insert(0, '/verif/mir'); import mirdump; print(mirdump.dump())" > /verif/.build/logs/setup-mir.log 2>&1 ) &
+wait
 exit 0
